@@ -79,15 +79,34 @@ def shared : List Claim → Bool
   | [] => false
   | c :: cs => (c.alias && cs.any fun d => d.alias && d.key == c.key) || shared cs
 
-/-- Full-strength Spec of one CONFIGURE outcome. -/
-def Spec (tasks : List Task) : Except Err (List Props) → Prop
-  | .ok res => res.length = tasks.length ∧ Matched false tasks res ∧ Passthrough tasks res ∧
-      ¬ Unmatched tasks ∧ clash (claims tasks) = false
+/-- Alias claims as DECLARED: every inbound channel with a `global` claims that
+    alias for the endpoint allocated to it. -/
+def declClaims (t : Task) : List Claim :=
+  t.inbound.filterMap fun c =>
+    if c.global.isEmpty then none
+    else (Assoc.get t.loc c.name).map fun e =>
+      { key := aliasKey c.global, alias := true, raw := e, host := t.host }
+
+def allDeclClaims : List Task → List Claim
+  | [] => []
+  | t :: ts => declClaims t ++ allDeclClaims ts
+
+/-- Spec of one CONFIGURE outcome. `SpecW false false` is the full-strength
+    property; the two flags select the weakenings that hold of the code:
+    `emptyTarget` — the bind clause only for inbound channels without a target;
+    `locAliases`  — alias claims as they appear in the local bind maps (one per
+                    task and alias) instead of as declared (one per channel). -/
+def SpecW (emptyTarget locAliases : Bool) (tasks : List Task) : Except Err (List Props) → Prop
+  | .ok res => res.length = tasks.length ∧ Matched emptyTarget tasks res ∧ Passthrough tasks res ∧
+      ¬ Unmatched tasks ∧ clash (if locAliases then claims tasks else allDeclClaims tasks) = false
   | .error .unmatched => Unmatched tasks
   | .error .aliasConflict => shared (claims tasks) = true
 
-instance (tasks : List Task) (r : Except Err (List Props)) : Decidable (Spec tasks r) := by
-  unfold Spec; split <;> exact inferInstance
+instance (a b : Bool) (tasks : List Task) (r : Except Err (List Props)) : Decidable (SpecW a b tasks r) := by
+  unfold SpecW; split <;> exact inferInstance
+
+/-- Full-strength Spec. -/
+abbrev Spec (tasks : List Task) (r : Except Err (List Props)) : Prop := SpecW false false tasks r
 
 /-! ## well-formedness (hypotheses of the theorems) -/
 
@@ -120,6 +139,18 @@ def keysSane (cs : List Claim) : Bool :=
     no inbound channel carries a `target`. -/
 def noInboundTarget (tasks : List Task) : Bool :=
   tasks.all fun t => t.inbound.all fun c => c.target.isEmpty
+
+/-- Excluded hypothesis of `C13_alias_declared_partial` (finding
+    `alias_redefined_within_task`): every declared alias is advertised with the
+    declaring channel's own endpoint (fails when two channels of one task name
+    the same alias: the launch keeps the last one). -/
+def aliasesAdvertised (t : Task) : Prop :=
+  ∀ c ∈ t.inbound, c.global.isEmpty = false →
+    ∀ e, Assoc.get t.loc c.name = some e → ∃ kv ∈ t.loc, kv.1 = aliasKey c.global ∧ kv.2 = e
+
+instance (t : Task) : Decidable (aliasesAdvertised t) := by
+  unfold aliasesAdvertised
+  exact List.decidableBAll _ _
 
 def WF (tasks : List Task) : Prop :=
   (∀ t ∈ tasks, launchOk t = true ∧ validHost t.host = true ∧ namesDistinct t) ∧
